@@ -551,7 +551,37 @@ func bundleKeys(ctx context.Context, b *Bundle, size uint32, db kvStore, logger 
 		// NOTE: this section issues a GET on remote store for this key and has been seen as the
 		// limiting factor on the throughput of the index building job.
 		// By skipping it on already existing root keys, we shall call this about 2.5x less often.
-		leaves, err := cafs.LeavesForHash(b.BlobStore(), root, size, "")
+		// A failure to read the root blob must not be mistaken for a corrupted root blob: the leaves would
+		// silently be left out of the index, then deleted as unused.
+		var data []byte
+		err = backoff.Retry(func() error {
+			rdr, e := b.BlobStore().Get(ctx, key)
+			if e != nil {
+				if errors.Is(e, status.ErrNotExists) {
+					return backoff.Permanent(e)
+				}
+
+				return e
+			}
+			defer func() {
+				_ = rdr.Close()
+			}()
+			data, e = io.ReadAll(rdr)
+
+			return e
+		},
+			backoff.WithContext(defaultBackoff(), ctx),
+		)
+		if err != nil && !errors.Is(err, status.ErrNotExists) {
+			logger.Error("the root key cannot be read", zap.String("key", entry.Hash), zap.Error(err))
+
+			return nil, fmt.Errorf("reading root key %s: %w", key, err)
+		}
+
+		var leaves []cafs.Key
+		if err == nil {
+			leaves, err = cafs.LeafKeys(root, data, size)
+		}
 		if err != nil {
 			// The root key is somehow corrupted. This might happen with objects created with previous versions of datamon:
 			// ignore the leaves and just return the root key.
